@@ -27,6 +27,7 @@ type flagSpec struct {
 	// features of the carapace-pflag fork
 	Nargs int    `json:"nargs"` // 0 = one value; n > 1: n values; -1: every following word up to the next flag
 	Delim string `json:"delim"` // "" = the default `=`; otherwise the character that attaches an optional / a value argument
+	Mode  int    `json:"mode"`  // 0 default; 1 ShorthandOnly (`-short` only); 2 NameAsShorthand (`-short`, `-name`, `--name`); the shorthand may be a word (non-POSIX)
 }
 
 type cmdSpec struct {
@@ -91,7 +92,30 @@ func buildTree(spec treeSpec, rec *runRecord) []*cobra.Command {
 			if fsp.Persistent {
 				fs = c.PersistentFlags()
 			}
-			switch fsp.Kind {
+			switch {
+			case fsp.Mode == 1 && fsp.Kind == "bool":
+				fs.BoolS(fsp.Name, fsp.Short, false, "usage "+fsp.Name)
+			case fsp.Mode == 2 && fsp.Kind == "bool":
+				fs.BoolN(fsp.Name, fsp.Short, false, "usage "+fsp.Name)
+			case fsp.Mode == 1 && fsp.Kind == "count":
+				fs.CountS(fsp.Name, fsp.Short, "usage "+fsp.Name)
+			case fsp.Mode == 2 && fsp.Kind == "count":
+				fs.CountN(fsp.Name, fsp.Short, "usage "+fsp.Name)
+			case fsp.Mode == 1 && fsp.Kind == "stringSlice":
+				fs.StringSliceS(fsp.Name, fsp.Short, nil, "usage "+fsp.Name)
+			case fsp.Mode == 2 && fsp.Kind == "stringSlice":
+				fs.StringSliceN(fsp.Name, fsp.Short, nil, "usage "+fsp.Name)
+			case fsp.Mode == 1:
+				fs.StringS(fsp.Name, fsp.Short, "", "usage "+fsp.Name)
+			case fsp.Mode == 2:
+				fs.StringN(fsp.Name, fsp.Short, "", "usage "+fsp.Name)
+			}
+			kind := fsp.Kind
+			if fsp.Mode != 0 {
+				kind = "-" // defined above
+			}
+			switch kind {
+			case "-":
 			case "bool":
 				fs.BoolP(fsp.Name, fsp.Short, false, "usage "+fsp.Name)
 			case "count":
@@ -332,6 +356,10 @@ func runParse(raw json.RawMessage) interface{} {
 	// ... and with the current word taken as complete (a shorthand series in progress: are the letters typed so far acceptable?)
 	if cur := in.Words[len(in.Words)-1]; len(cur) >= 2 && cur[0] == '-' && cur[1] != '-' {
 		out["typedCurRun"] = executeLine(in.Tree, in.Words)
+	}
+	// where would the program's own parser put a word typed here? (model-free completeness side of C01)
+	if cur := in.Words[len(in.Words)-1]; !strings.HasPrefix(cur, "-") {
+		out["probeRun"] = executeLine(in.Tree, append(append([]string{}, earlier...), "PROBE"))
 	}
 	// accept every offered candidate in turn and let the program's own parser place it
 	runs := []map[string]interface{}{}
@@ -660,10 +688,55 @@ func genParseUnknown(r *rng, t treeSpec) parseIn {
 	return parseIn{Tree: t, Words: append(words, cur)}
 }
 
+// genParseNonPosix: flag sets in which a shorthand is a word (`-bool-short`), which switches the fork's parser and
+// carapace's lookup to their non-POSIX mode: no shorthand chains, `-name<d>value`, flags that exist only as
+// `-short` (ShorthandOnly) or also as `-name` (NameAsShorthand)
+func genParseNonPosix(r *rng, t treeSpec) parseIn {
+	k := r.intn(len(t.Cmds))
+	c := &t.Cmds[k]
+	c.NoFlagParse = false
+	c.Interspersed = !r.chance(15)
+	delim := pick(r, []string{":", ":", "/", ""})
+	c.Flags = []flagSpec{
+		{Name: "bool-long", Short: "bool-short", Kind: "bool", Mode: 2},
+		{Name: "delim", Short: "delim", Kind: "string", Mode: 1, Delim: delim},
+		{Name: "count", Short: "c", Kind: "count", Mode: 2},
+		{Name: "opt", Short: "o", Kind: "string"},
+		{Name: "list", Short: "list", Kind: "stringSlice", Mode: 1, Nargs: pick(r, []int{0, 0, -1})},
+	}
+	if c.NPos == 0 {
+		c.NPos = 2
+	}
+	c.PosAny = true
+	d := delim
+	if d == "" {
+		d = "="
+	}
+	words := []string{}
+	for p := k; p > 0; p = t.Cmds[p].Parent {
+		words = append([]string{t.Cmds[p].Name}, words...)
+	}
+	for n := r.intn(3); n > 0; n-- {
+		words = append(words, pick(r, [][]string{{"-bool-short"}, {"-bool-long"}, {"--bool-long"}, {"-delim" + d + "v"}, {"-delim", "v"}, {"-delim" + d}, {"-c"}, {"-count"}, {"--count"},
+			{"-cc"}, {"--opt", "v"}, {"-o", "v"}, {"-ov"}, {"-o=v"}, {"-list", "a"}, {"-list", "a", "b"}, {"--list", "a"}, {"--delim", "v"}, {"pos"}, {"--"}, {"-x"}})...)
+	}
+	if r.chance(35) {
+		// a flag that waits for its value, then the cursor
+		words = append(words, pick(r, [][]string{{"-o"}, {"-delim"}, {"-list"}, {"--opt"}, {"-list", "a"}, {"-bool-short"}, {"-c"}})...)
+		words = append(words, pick(r, []string{"", "", "x"}))
+		return parseIn{Tree: t, Words: words}
+	}
+	words = append(words, pick(r, []string{"", "", "", "x", "-", "--", "-b", "-bool-", "-delim" + d, "-delim" + d + "p", "-delim", "-c", "-co", "-o", "-o=", "-list", "--opt=", "--b"}))
+	return parseIn{Tree: t, Words: words}
+}
+
 func genParse(r *rng, tier string) interface{} {
 	t := genTree(r)
 	if r.chance(10) {
 		return genParseFork(r, t)
+	}
+	if r.chance(6) {
+		return genParseNonPosix(r, t)
 	}
 	if r.chance(5) {
 		return genParseUnknown(r, t)
